@@ -14,6 +14,8 @@ rows = ['| seeded change | first | now | how / what it took |', '|---|---|---|--
 counts = {}
 r2first = {'quick': 0, 'thorough': 0, 'no': 0}
 r2now = {'quick': 0, 'thorough': 0, 'no': 0}
+r3first = {'quick': 0, 'thorough': 0, 'no': 0}
+r3now = {'quick': 0, 'thorough': 0, 'no': 0}
 def natural(p):
     b = os.path.basename(p)
     m = re.match(r'(C\d+)-m(\d+)', b)
@@ -38,10 +40,10 @@ for p in sorted(glob.glob(os.path.join(root, 'seeded', '*')), key=natural):
     else:
         fr = m.get('first_result', '')
         first = 'quick' if 'quick tier' in fr and fr.startswith('detected') else ('thorough' if fr.startswith('detected') else 'not detected')
-        r2first['quick' if first == 'quick' else ('thorough' if first == 'thorough' else 'no')] += 1
+        (r2first if num <= 6 else r3first)['quick' if first == 'quick' else ('thorough' if first == 'thorough' else 'no')] += 1
         fin = m.get('final_result', '')
         now = 'quick' if fin.startswith('detected (quick') else ('thorough' if fin.startswith('detected (thorough') else ('not detected' if fin else '?'))
-        r2now['quick' if now == 'quick' else ('thorough' if now == 'thorough' else 'no')] += 1
+        (r2now if num <= 6 else r3now)['quick' if now == 'quick' else ('thorough' if now == 'thorough' else 'no')] += 1
         r = (fin + ('. ' + r if r else '')).strip()
     summ = re.sub(r'\s+', ' ', m.get('summary') or '')[:140].replace('|', '/')
     rows.append('| `%s` — %s | %s | %s | %s |' % (short, summ, first, now, r[:240].replace('|', '/')))
@@ -60,5 +62,7 @@ n2 = sum(r2first.values())
 s2 = open(os.path.join(root, 'DESIGN.md')).read()
 s2 = re.sub(r'<!-- round2first -->[^.]*?(?=\. That number)', '<!-- round2first -->%d of %d at the quick tier (seed 1), %d more at the thorough tier only, %d not at all' % (r2first['quick'], n2, r2first['thorough'], r2first['no']), s2)
 s2 = re.sub(r'<!-- round2now -->[^\n]*', '<!-- round2now -->On the final tree: %d of %d at the quick tier, %d more at the thorough tier, %d not detected (each of those is discussed in §11.5).' % (r2now['quick'], n2, r2now['thorough'], r2now['no']), s2)
+n3 = sum(r3first.values())
+s2 = re.sub(r'<!-- round3 -->[^\n]*', '<!-- round3 -->first pass %d of %d at the quick tier, %d more at the thorough tier, %d not at all; after two generator additions %d quick, %d thorough, %d not detected.' % (r3first['quick'], n3, r3first['thorough'], r3first['no'], r3now['quick'], r3now['thorough'], r3now['no']), s2)
 open(os.path.join(root, 'DESIGN.md'), 'w').write(s2)
 print(len(d['fixed']), 'fixed;', len(d['findings']), 'listed;', counts, 'round2 first', r2first, 'now', r2now)
